@@ -16,6 +16,7 @@ C18 driver.  One stateful sequence per `reset`.  Case lines (`b` backend index, 
   state b s             backend protocol state (h|s|l|c|p) → -
   closed b 0|1, conn b 0|1                                 → -
   race g id,id,…        g goroutines each reply every id (rotated start) → sorted writes
+  racelocked g id,…     the same, started while the connections' mutexes are held by someone else
 
 `writes` = `-` or comma-separated `b:id` in the order written (sorted for `race`); the client
 connection counts as backend 9.  Verdict = the property evaluated on the IMPLEMENTATION's writes
@@ -124,7 +125,7 @@ def step (s : Sys) (c : Case) : Sys × String × String :=
   | "conn", [b, v] => match b.toNat? with
     | some b => (act s (.setConn b (v = "1")), "-", "-")
     | none => (s, "bad-op", "-")
-  | "race", [g, ids] => match g.toNat?, (ids.splitOn ",").mapM String.toInt? with
+  | "race", [g, ids] | "racelocked", [g, ids] => match g.toNat?, (ids.splitOn ",").mapM String.toInt? with
     | some g, some ids =>
       -- consumption is atomic, so the outcome of the race is the outcome of handling all g·|ids|
       -- replies one after the other (in any order)
